@@ -60,7 +60,7 @@ theorem constructComposite_ok {w : FWorld} (hw : HeapOK w) (ids : List Nat)
   simp only [FWorld.constructComposite, FWorld.push, FWorld.setObs, Prod.mk.injEq, Option.some.injEq] at h
   obtain ⟨rfl, rfl⟩ := h
   simp only [set_append_last]
-  generalize ho : ({ kind := FKind.composite, parts := ids, cols := compositeCols (w.heap ++ [({ kind := .composite, parts := ids } : FObs)]) ids, fts := (compositeCols (w.heap ++ [({ kind := .composite, parts := ids } : FObs)]) ids).map (·.1) } : FObs) = o'
+  generalize ho : ({ kind := FKind.composite, parts := ids, cols := compositeCols (w.heap ++ [({ kind := .composite, parts := ids } : FObs)]) ids, fts := (compositeCols (w.heap ++ [({ kind := .composite, parts := ids } : FObs)]) ids).map (·.1), names := compositeNames (w.heap ++ [({ kind := .composite, parts := ids } : FObs)]) ids } : FObs) = o'
   have hk' : o'.kind = .composite := by rw [← ho]
   have hp' : o'.parts = ids := by rw [← ho]
   have hc' : o'.cols = compositeCols (w.heap ++ [({ kind := .composite, parts := ids } : FObs)]) o'.parts := by
